@@ -149,9 +149,18 @@ m = {
   "not_applicable": [],
   "notes": "All checks: ./run check <id> <tier>. Exit 0 = held on everything explored (KNOWN-FINDING lines possible), 1 = VIOLATION, 2 = HARNESS-ERROR.",
 }
+# the enumeration rules as the checks' code states them (tools/rules.json is regenerated with
+# `.work/bin/vcheck-asm --rules > tools/rules.json` whenever a check's space changes)
+RULES = {}
+try:
+    RULES = json.load(open(os.path.join(V, "tools", "rules.json")))
+except OSError:
+    pass
 for id in ids:
     if id in CHECKS:
-        c = CHECKS[id]
+        c = dict(CHECKS[id])
+        if id in RULES:
+            c["text"] = c["text"] + " CURRENT SPACE, as stated by the check's code (supersedes the counts above where they differ): " + RULES[id]
         m["checks"].append({
           "property_id": id,
           "quick_cmd": f"./run check {id} quick",
